@@ -10,6 +10,7 @@
 (*   arr     [       1,               ok 1]   dcomma ,]  nocomma 1 1]  open 1 *)
 (*   objs    [       {"a":1},         ok {}]  dcomma ,]  nocomma {} {}] open {} *)
 (*   members {       "k":1,           ok "z":1} dcomma ,} nocomma "y":1 "z":1} open "z":1 *)
+(*                                    geo "type":"Feature"}   gltf "asset":{"version":"2.0"}} *)
 (* (a SINGLE trailing comma before the closer is a leniency C09 tolerates, *)
 (* so the damaged tails are a doubled comma and a missing comma)           *)
 (* Whole documents (limit 0 or > length): ok must be accepted (C08), the   *)
@@ -25,7 +26,7 @@ UnitLen(s) == CASE s = "arr" -> 2 [] s = "objs" -> 8 [] s = "members" -> 6
 TailLen(s, t) ==
     CASE s = "arr"     -> (CASE t = "ok" -> 2 [] t = "dcomma" -> 2 [] t = "nocomma" -> 4 [] t = "open" -> 1)
       [] s = "objs"    -> (CASE t = "ok" -> 3 [] t = "dcomma" -> 2 [] t = "nocomma" -> 6 [] t = "open" -> 2)
-      [] s = "members" -> (CASE t = "ok" -> 6 [] t = "dcomma" -> 2 [] t = "nocomma" -> 12 [] t = "open" -> 5)
+      [] s = "members" -> (CASE t = "ok" -> 6 [] t = "dcomma" -> 2 [] t = "nocomma" -> 12 [] t = "open" -> 5 [] t = "geo" -> 17 [] t = "gltf" -> 26)
 Total(r) == 1 + UnitLen(r.shape) * r.n + TailLen(r.shape, r.tail)
 Whole(r) == r.limit = 0 \/ r.limit > Total(r)
 AllVisible(r) == r.limit = Total(r)
@@ -34,9 +35,12 @@ Check(name, what, cond) == IF cond THEN TRUE ELSE PrintT(<<"VIOLATION", name, l,
 Init == l = 1 /\ TLCSet(42, 1)
 Consume == /\ l <= Len(Trace)
            /\ LET r == Trace[l] IN
-                /\ Check("C08", "well-formed wide document examined in full not reported as JSON", (Whole(r) /\ r.tail = "ok") => r.cls # "")
-                /\ Check("C08", "prefix of a well-formed wide document not reported as JSON", (CutInRun(r) \/ (AllVisible(r) /\ r.tail \in {"ok", "open"})) => r.cls # "")
-                /\ Check("C09", "wide document damaged after its last element reported as JSON (whole)", (Whole(r) /\ r.tail # "ok") => r.cls = "")
+                /\ Check("C08", "well-formed wide document examined in full not reported as JSON", (Whole(r) /\ r.tail \in {"ok", "geo", "gltf"}) => r.cls # "")
+                /\ Check("C08", "prefix of a well-formed wide document not reported as JSON", (CutInRun(r) \/ (AllVisible(r) /\ r.tail \in {"ok", "open", "geo", "gltf"})) => r.cls # "")
+                \* C10: a deciding member after any number of siblings, inside the examined header
+                /\ Check("C10", "deciding member after many siblings not honoured", ((Whole(r) \/ AllVisible(r)) /\ r.tail \in {"geo", "gltf"}) => r.cls = r.tail)
+                /\ Check("C10", "sub-type reported without a deciding member", r.tail \notin {"geo", "gltf"} => r.cls \in {"", "json"})
+                /\ Check("C09", "wide document damaged after its last element reported as JSON (whole)", (Whole(r) /\ r.tail \in {"dcomma", "nocomma", "open"}) => r.cls = "")
                 /\ Check("C09", "wide document damaged after its last element reported as JSON (all bytes visible)", (AllVisible(r) /\ r.tail \in {"dcomma", "nocomma"}) => r.cls = "")
            /\ l' = l + 1 /\ TLCSet(42, l + 1)
 Spec == Init /\ [][Consume]_l
